@@ -94,7 +94,7 @@ func init() {
 	}
 	extraTrees["c7same"] = func() fsmodel.Tree { return Tree("c7src") }
 	extraTrees["c7diff"] = func() fsmodel.Tree {
-		return fsmodel.Tree{f("a", 1, 5, t1+100), d("d", t1+1), f("d/b", 2, 3, t1+2), f("z", 5, 39999, t1+6), f("stale", 6, 4, t1)}
+		return fsmodel.Tree{f("a", 1, 5, t1+100), d("d", t1+1), f("d/b", 2, 3, t1+2), f("e", 7, 6, t1+50), f("z", 5, 39999, t1+6), f("stale", 6, 4, t1)}
 	}
 	extraTrees["c7swap"] = func() fsmodel.Tree {
 		return fsmodel.Tree{d("a", t1), f("a/x", 7, 4, t1), f("d", 8, 2, t1), f("l", 9, 3, t1), d("p", t1), f("p/q", 10, 1, t1)}
